@@ -5976,6 +5976,15 @@ class FlowIRConcrete(object):
                 ret, ignore_convert_errors=ignore_convert_errors, is_primitive=is_primitive
             )
 
+            if need_fully_resolved_flowir and ignore_convert_errors:
+                # VV: The cache does not record whether conversion errors were ignored. A configuration that still
+                # contains unconverted values must not be served to callers which did not ask to ignore conversion
+                # errors (they expect an exception), so only cache it if a strict conversion succeeds too.
+                try:
+                    FlowIR.convert_component_types(deep_copy(ret), ignore_convert_errors=False, is_primitive=is_primitive)
+                except Exception:
+                    need_fully_resolved_flowir = False
+
         # VV: Interpreters will *never* expand their arguments
         if ret.get('command', {}).get('interpreter', None) is not None:
             ret['command']['expandArguments'] = 'none'
